@@ -1,6 +1,7 @@
 (* topic driver: plan model (extract/plan_model.ml).
    One case per line:
-     (skel <db> <query>)  ->  <supported 0|1> <joins_wf 0|1> <skeleton of lskel (plan_of q)>
+     (skel (sch (w..)) <query>)  ->  line 1: <supported 0|1> <joins_wf 0|1> <skeleton lskel (plan_of q)>
+                                    line 2: <pskel (phys_of (plan_of q)) = phys_sk (lskel ..) 0|1> <skeleton phys_sk (lskel (plan_of q))>
      (same <db> <query>)  ->  SAME | DIFF | ERRPLAN <kind> | ERRSPEC <kind> | ERRBOTH   (eval_lplan (plan_of q) vs eval_query q, env [])
      (same0 <db> <query>) ->  likewise for plan0_of, errors compared too (SAME also when both are the same error)
    db / query syntax: see ocaml/sql.ml (the parser below is copied from it). *)
@@ -102,8 +103,29 @@ let s_op = function
   | KLimit (l, o) -> "limit " ^ s_onat l ^ " " ^ s_nat o
   | KMatScan -> "matscan"
   | KMarkJoin n -> "markjoin " ^ s_nat n
-  | KMagicJoin m -> "magicjoin " ^ s_b m
+  | KMagicJoin SubScalar -> "magicjoin scalar"
+  | KMagicJoin SubExists -> "magicjoin exists"
+  | KMagicJoin SubIn -> "magicjoin in"
 let rec s_sk (Sk (op, cs)) = "(" ^ s_op op ^ String.concat "" (List.map (fun c -> " " ^ s_sk c) cs) ^ ")"
+
+let s_pjk = function PJ k -> s_jk k | PJMark -> "mark"
+let s_pop = function
+  | QScan t -> "scan " ^ s_nat t
+  | QSingleRow -> "singlerow"
+  | QExprList n -> "exprlist " ^ s_nat n
+  | QFilter -> "filter"
+  | QProject n -> "project " ^ s_onat n
+  | QNlJoin (k, f) -> "nljoin " ^ s_pjk k ^ " " ^ s_b f
+  | QHashJoin (k, n) -> "hashjoin " ^ s_pjk k ^ " " ^ s_nat n
+  | QHashAggregate (nk, na) -> "hashaggregate " ^ s_nat nk ^ " " ^ s_nat na
+  | QUngroupedAggregate na -> "ungroupedaggregate " ^ s_nat na
+  | QHashDistinct -> "hashdistinct"
+  | QUnionOp -> "union"
+  | QSort n -> "sort " ^ s_nat n
+  | QLimit (l, o) -> "limit " ^ s_onat l ^ " " ^ s_nat o
+  | QMaterialize -> "materialize"
+  | QUnsupported -> "unsupported"
+let rec s_psk (Psk (op, cs)) = "(" ^ s_pop op ^ String.concat "" (List.map (fun c -> " " ^ s_psk c) cs) ^ ")"
 
 let sch_of (d : value list list list) : nat list =
   List.map (fun rows -> match rows with [] -> O | r :: _ -> nat_of_int (List.length r)) d
@@ -118,7 +140,12 @@ let () =
             | L [A "skel"; L [A "sch"; L ws]; q] ->
               let sch = List.map (fun w -> nat_of (atom w)) ws in
               let q = p_query q in
-              print_endline (s_b (plan_supported q) ^ " " ^ s_b (joins_wf sch q) ^ " " ^ s_sk (lskel sch (plan_of q)))
+              let lp = plan_of q in
+              let ls = lskel sch lp in
+              print_endline (s_b (plan_supported q) ^ " " ^ s_b (joins_wf sch q) ^ " " ^ s_sk ls);
+              let pp = pskel sch (phys_of lp) in
+              let rec has_uns (Psk (op, cs)) = (op = QUnsupported) || List.exists has_uns cs in
+              print_endline ((if has_uns pp then "u" else s_b (psk_eqb pp (phys_sk ls))) ^ " " ^ s_psk (phys_sk ls))
             | L [A "same"; L [A "sch"; L ws]; d; q] ->
               let sch = List.map (fun w -> nat_of (atom w)) ws in
               let d = List.map p_rows (lst d) in
@@ -134,7 +161,10 @@ let () =
               let q = p_query q in
               print_endline (if eval_lplan d [] (plan0_of q) = eval_query d [] q then "SAME" else "DIFF")
             | _ -> print_endline "BADCASE"
-          with Failure m -> print_endline ("BADCASE " ^ m) | Stack_overflow -> print_endline "BADCASE stack")
+          with Failure m ->
+                 let twice = String.length line > 5 && String.sub (String.trim line) 0 5 = "(skel" in
+                 print_endline ("BADCASE " ^ m); if twice then print_endline ("BADCASE " ^ m)
+             | Stack_overflow -> print_endline "BADCASE stack")
        end
      done
    with End_of_file -> ())
